@@ -199,6 +199,10 @@ class ZConfigParser:
             e.lineno = self.lineno
             e.url = self.url
             raise
+        except ZConfig.SubstitutionSyntaxError as e:
+            e.lineno = self.lineno
+            e.url = self.url
+            raise
 
     def error(self, message):
         raise ZConfig.ConfigurationSyntaxError(message, self.url, self.lineno)
